@@ -536,6 +536,7 @@ def _make_batch(args):
 
 def validate_sessions(sessions: list[dict], tmp: str) -> list[tuple]:
     """Run TLC on SpecSessionTrace over the sessions; return [(sid, event_index, {(pid, clause)})]."""
+    sessions = [s for s in sessions if not tla.has_null(s["events"])]        # (never seen on the unchanged tree)
     if not sessions:
         return []
     n = max(1, max(s["npts"] for s in sessions))
